@@ -6,7 +6,7 @@ import sys
 import vt.boot  # noqa: F401
 from gym_gridverse.geometry import Orientation, Position
 
-from vt import core, gen, impl, wire
+from vt import core, gen, impl, tsuite, wire
 
 ORIS = list(Orientation)
 VEC = {0: (-1, 0), 1: (1, 0), 2: (0, -1), 3: (0, 1)}  # F B L R heading vectors (checked against the code by T1)
@@ -99,6 +99,7 @@ def gen_cases(ctx):
         else:
             names = [r.randrange(7) for _ in range(r.randint(2, 5))]
         yield (names, cs, act, 'random')
+    yield from tsuite.wrap_cases(ctx, n // 2, focus=[0, 0, 1])
 
 
 def run_cases(ctx, cases):
@@ -143,11 +144,33 @@ def corpus():
     yield ([0], (g3, (1, 2), 3, gen.NONE), 0, 'corpus')
 
 
+def history_oracle(ctx, names, cs, action, kind, val, log, tape):
+    """one step of the full chain (move_agent first) after a history of other steps: the move must obey the grid AS IT IS NOW"""
+    g, p, o, held = cs
+    h, w = gen.shape_of(g)
+    case = {'functions': [impl.TNAMES[n] for n in names], 'state': gen.show_state(cs), 'action': impl.ACTS[action].name, 'wire_state': cs, 'history': True}
+    if kind != 'ok':
+        ctx.violation(f'transition raised {val}', case)
+        return
+    g2, p2, o2, held2 = val
+    exp = p
+    if action < 4:
+        t = target(cs, action)
+        if 0 <= t[0] < h and 0 <= t[1] < w and not blocks(g[t[0]][t[1]]):
+            exp = t
+    on_telepod = g[exp[0]][exp[1]][0] == gen.TY['Telepod']
+    if p2 != exp and not on_telepod:
+        ctx.violation(f'after a history of other steps: agent at {p} heading {"FBLR"[o]} under {impl.ACTS[action].name} ends at {p2}, expected {exp}', case)
+    if not (0 <= p2[0] < h and 0 <= p2[1] < w) or (not blocks(g[p[0]][p[1]]) and blocks(g2[p2[0]][p2[1]])):
+        ctx.violation(f'kinematic invariant broken after a history: agent ends at {p2}', case)
+
+
 def run(ctx):
     ctx.rule = ('corpus of past failures, then every object kind as move target x headings x actions, then ALL poses x actions on all '
                 'Floor/Wall grids up to 2x2,1x3 (thorough: 3x3), then random states (edge-biased poses) with single functions and '
                 'compositions; non-trivial = a move action through move_agent, or a step that changed the state / a composition')
     run_cases(ctx, itt.chain(corpus(), gen_cases(ctx)))
+    tsuite.run_histories(ctx, 200 if ctx.tier == 'quick' else 2000, history_oracle)
     ctx.exhaustive = False
 
 
